@@ -107,7 +107,7 @@ def oracle(case, out):
     if case.get("op") == "threads":
         if out.get("error"):
             return f"execution failed: {out['error']}"
-        return do.c26_threads(case["scenario"], out["trace"], out["final"])
+        return do.c26_threads(case["scenario"], out["trace"], out["final"], observers=not case.get("lines"))
     return do.c26_history(case, out)
 
 
@@ -216,7 +216,8 @@ def extra(rng, tier):
     parts = [("", dp.thread_check(scs, do.c26_threads, tier, accept=True, classify=classify))]
     if tier == "thorough":
         # line-granular exploration (sys.settrace, preemption also inside lock blocks): oracle only
-        parts.append(("lines", dp.thread_check(SCENARIOS, do.c26_threads, tier, accept=False, lines=True, bound=2, budget_s=120)))
+        parts.append(("lines", dp.thread_check(SCENARIOS, lambda sc, tr, fin: do.c26_threads(sc, tr, fin, observers=False), tier,
+                                              accept=False, lines=True, bound=2, budget_s=120)))
     return dp.merge_extra(parts)
 
 
